@@ -102,6 +102,20 @@ def r1_entry_points(ctx):
                 fe += c.edges_for(False)
         ins = calls_norm(a, "BTreeMap::insert")
         if ctx.floor("R12.1", "insert into the idle map in add_idle_session", len(ins), 1):
+            # ... and conversely an open session handed to the pool always ends up in the map with its idle clock restarted: the
+            # only way through the function that does not insert is the closed edge
+            okall, pth = cfg.must_pass([e[1] for e in fe], a.return_blocks(), via_blocks=[c.bb for c in ins]) if fe else (False, None)
+            oa = ctx.origins(a)
+            fresh = False
+            for c in ins:
+                v = oa.of_operand(c.args[2]) if len(c.args) > 2 else None
+                ts = [v] + [oa.init_of(s_[2]) for s_ in subterms(v) if isinstance(s_, tuple) and s_ and s_[0] == "var" and len(s_) > 2]
+                if any(is_call_term(s_, "Instant::now") for t_ in ts for s_ in subterms(t_)):
+                    fresh = True
+            ctx.ob("R12.1", "add_idle_session:open-session-always-(re)inserted-with-a-fresh-idle-instant", okall and fresh, ins[0].site,
+                   "from the open edge every path inserts a PooledSession whose idle_since is Instant::now()" if okall and fresh else
+                   "add_idle_session can return without (re)inserting an open session, or inserts it with an idle instant that is not `now` (an 'already in the pool' shortcut): a session handed back keeps the idle "
+                   "clock of its first registration, and the reaper closes it as expired although it has been idle for seconds", path=None if okall or not pth else render_path(a, pth))
             ok = bool(fe) and all(cfg.edges_dominate(fe, c.bb) for c in ins)
             ctx.ob("R12.1", "add_idle_session:inserts-open-session", ok, ins[0].site, "the insert is dominated by the false edge of is_closed()" if ok else "a closed session can be inserted into the idle map")
 
@@ -296,6 +310,8 @@ def run(ctx):
     r1_entry_points(ctx)
     r2_to_r6_reapers(ctx)
     from . import C13, C09
+    C09.r1_locks(ctx)        # the pool never waits on a lock it holds itself (a request that meets a dead entry still returns)
+    C13.r7_pool_config_is_what_was_given(ctx)   # the reaper works with the configured idle minimum / timeout / interval
     C09.r3_recv_exits(ctx)   # every way the receive loop ends closes the session: a pooled session whose connection died reports closed
     C09.r4_close_body(ctx)   # close() raises the closed flag before it starts tearing the session down: is_closed(), which both the reuse path and the reaper rely on, is true for a dying session
     C13.r4_pool_keys(ctx)    # one key per session: a colliding key silently evicts (drops, never closes) a healthy pooled session
